@@ -351,6 +351,21 @@ class ResetInterp:
                     return self._exclusion(rest[0], pv, cx)
                 return ('none',)
             return None
+        if isinstance(c, ast.Compare) and len(c.ops) == 1 and isinstance(c.ops[0], ast.NotIn) \
+                and src(c.left) == pv and (
+                    isinstance(c.comparators[0], (ast.List, ast.Tuple, ast.Set)) or
+                    (isinstance(c.comparators[0], ast.Name) and
+                     f'display:{c.comparators[0].id}' in cx.env)):
+            # `p not in [a]` is `p != a`; `p not in ()` excludes nothing
+            coll = c.comparators[0]
+            if isinstance(coll, ast.Name):
+                coll = cx.env[f'display:{coll.id}']
+            elts = coll.elts
+            if not elts:
+                return ('none',)
+            if len(elts) == 1 and not isinstance(elts[0], ast.Starred):
+                return self._exclusion(ast.Compare(c.left, [ast.NotEq()], [elts[0]]), pv, cx)
+            return None
         if isinstance(c, ast.Compare) and len(c.ops) == 1 and isinstance(c.ops[0], ast.NotEq):
             l, r = c.left, c.comparators[0]
             for a, b in ((l, r), (r, l)):
@@ -495,6 +510,11 @@ class ResetInterp:
 
     def assign(self, tg: ast.AST, val: ast.AST, s: ast.stmt, cx: Ctx, f: Func, rest):
         vs = src(val)
+        if isinstance(tg, ast.Name) and isinstance(val, (ast.List, ast.Tuple, ast.Set)) and \
+                len(val.elts) <= 1:
+            # a short literal collection (`exclude = [state.agent.position]`): kept as written
+            # for membership tests in later filters
+            cx.env[f'display:{tg.id}'] = val
         # state = <reset function>(shape, ...)
         if isinstance(val, ast.Call) and isinstance(val.func, ast.Name) and \
                 val.func.id in self.funcs and isinstance(tg, ast.Name):
